@@ -221,6 +221,18 @@ def lossless(ctx, cfg, fs):
         b = ctx.look(fs.host(rx, r'State>::take_positional_word$') if 'parse_pos_word' in rx else fs.one(rx))
         bad = [c.name for x in fs.family(b) for c in x.calls() if c.is_(*LOSSY)]
         ctx.ob('L.lossless', 'value-path:%s' % short(b.path), not bad, '%s (on the path of values) performs no lossy or normalising conversion: %s' % (short(b.path), bad or 'none'), where=b.where(), cfg=cfg)
+    # the value half of `-nVALUE=..` / `--name=VALUE` is cut out of the raw elements of the word: it never goes through a text decoding
+    # (which is fallible - a value whose bytes are not utf8 would stop the word from being recognised as name + value at all)
+    sp = ctx.look(fs.one(r'^arg::split_os_argument$'))
+    srcs = []
+    for x in fs.family(sp):
+        for i, k, st in x.stmts():
+            if st['k'] == 'assign' and st['rv']['k'] == 'agg' and st['rv'].get('variant') == 'ArgWord' and st['rv'].get('adt', '').endswith('arg::Arg'):
+                for r in provenance(x, st['rv']['fields'][0], i, k, through=DEFAULT_THROUGH):
+                    srcs.append(short(r.call.name) if r.kind == 'call' else '%s:%s' % (r.kind, r.what))
+    decoded = [s_ for s_ in srcs if re.search(r'String|str_from_vec|to_str|from_utf8|split_off|to_owned|to_string', s_)]
+    ctx.ob('L.lossless', 'split_os_argument:value-cut-from-raw-elements', bool(srcs) and not decoded,
+           'the ArgWord payloads built by split_os_argument come from %s (a decoded String among them: %s)' % (sorted(set(srcs)), decoded or 'no'), where=sp.where(), cfg=cfg)
     # take_arg returns a clone of the payload
     b = fs.body(consumers.CONSUMERS['take_arg'][0])
     good = False
